@@ -129,7 +129,7 @@ def _await_key(b, y):
 
 
 def destructor(run, f, det):
-    d = "<WaitForGuard as std::ops::Drop>::drop"
+    d = __import__("anchors").guard_drop_def(f)
     body = f.body(d)
     if not run.require(body is not None, "O15.3", "drop-impl", "WaitForGuard has no Drop impl", "found"):
         return
